@@ -458,7 +458,8 @@ def rule_r3_r4(ctx: Ctx) -> None:
         v_pass: Optional[bool] = True
         v_fresh: Optional[bool] = True
         v_rec: Optional[bool] = True
-        w_pass = w_fresh = w_rec = ""
+        v_init: Optional[bool] = True
+        w_pass = w_fresh = w_rec = w_init = ""
         live = 0
         for trace, rv, notes in runs:
             if any(e.kind == "raise" for e in trace):
@@ -484,6 +485,13 @@ def rule_r3_r4(ctx: Ctx) -> None:
             for c_, want in ((c1, {}), (c2, {"f1": placed[0]})):
                 if c_ is None:
                     continue
+                iv = c_.kwargs.get("initial_values", None)
+                if isinstance(iv, dict) and iv:
+                    v_init = False
+                    w_init = (f"the values pinned for this node ({iv!r}) are handed on to the creation of its field '{'f2' if c_ is c2 else 'f1'}': a descendant with "
+                              f"a field of the same name receives the pinned value instead of one drawn from its own refinement")
+                elif iv is UNKNOWN and v_init is True:
+                    v_init, w_init = None, "the initial values handed to a field's creation are not followed"
                 dv = c_.kwargs.get("dependent_values", None)
                 if not isinstance(dv, dict):
                     v_pass = False if dv is None else None
@@ -504,6 +512,8 @@ def rule_r3_r4(ctx: Ctx) -> None:
         ctx.ob("C02.R3", cn, cn.node, f"create_node(P) [{label}]: children receive the dict of sibling values", v_pass, w_pass)
         ctx.ob("C02.R3", cn, cn.node, f"create_node(P) [{label}]: the sibling-value dict is a fresh dict of this node", v_fresh, w_fresh)
         ctx.ob("C02.R3", cn, cn.node, f"create_node(P) [{label}]: every built field is recorded under its name for its later siblings", v_rec, w_rec)
+        if init is not None:
+            ctx.ob("C02.R3", cn, cn.node, f"create_node(P) [{label}]: values pinned for a node are not handed on to the creation of its fields", v_init, w_init)
 
     # ---- mutate
     mu = ctx.fn(MUTATE)
